@@ -26,7 +26,7 @@ fn uq(sql: &str) -> Unit {
 
 pub const PROGRAMS: &[&str] = &[
     "opentxn", "failedtxn", "set", "setrole", "prepare", "namedparse", "halfbatch", "copyin", "setext", "named-in-txn", "hangstmt", "hangstmt-auto", "slowstmt-auto",
-    "setrole-then-txn", "set-then-txn", "prepare-in-failedtxn", "named-in-failedtxn",
+    "setrole-then-txn", "set-then-txn", "prepare-in-failedtxn", "named-in-failedtxn", "extcopy", "extcopy-fail", "copyin-batch",
 ];
 
 /// (units, natural ending units)
@@ -72,6 +72,43 @@ pub fn victim_units(prog: &str) -> (Vec<Unit>, Vec<Unit>) {
             ],
             vec![u(wire::copy_done(), "c", b'Z')],
         ),
+        // COPY FROM STDIN over the extended protocol: the ReadyForQuery comes with the Sync after CopyDone
+        "extcopy" | "extcopy-fail" => {
+            let mut b = wire::parse("", &format!("COPY t FROM STDIN /*{}*/", t(0, 0)), &[]);
+            b.extend(wire::bind("", "", &[], &[], &[]));
+            b.extend(wire::execute("", 0));
+            b.extend(wire::sync());
+            (
+                vec![
+                    u(b, "P B E S (COPY)", b'G'),
+                    u(wire::copy_data(format!("r1 {}\n", t(0, 1)).as_bytes()), "d", 0),
+                    if prog == "extcopy" { u(wire::copy_done(), "c", b'C') } else { u(wire::copy_fail("no"), "f", b'E') },
+                ],
+                vec![u(wire::sync(), "S", b'Z')],
+            )
+        }
+        // an extended-protocol batch in the middle of COPY IN, binding a statement the client prepared
+        // earlier (with a statement cache of size 1 it is no longer on the server and the pooler prepares it
+        // out of band, which aborts the COPY and leaves a second ReadyForQuery behind)
+        "copyin-batch" => {
+            let mut p1 = wire::parse("s1", &format!("SELECT 1 /*{}*/", t(0, 0)), &[]);
+            p1.extend(wire::sync());
+            let mut p2 = wire::parse("s2", &format!("SELECT 2 /*{}*/", t(0, 1)), &[]);
+            p2.extend(wire::sync());
+            let mut b = wire::bind("", "s1", &[], &[], &[]);
+            b.extend(wire::execute("", 0));
+            b.extend(wire::sync());
+            (
+                vec![
+                    u(p1, "P(s1) S", b'Z'),
+                    u(p2, "P(s2) S", b'Z'),
+                    u(wire::query(&format!("COPY t FROM STDIN /*{}*/", t(1, 0))), "Q COPY FROM STDIN", b'G'),
+                    u(wire::copy_data(format!("r1 {}\n", t(1, 1)).as_bytes()), "d", 0),
+                    u(b, "B(s1) E S (during COPY)", b'Z'),
+                ],
+                vec![],
+            )
+        }
         "setext" => {
             // SET through the extended protocol, outside a transaction
             let mut b = wire::parse("", &format!("SET work_mem TO '77MB' /*{}*/", t(0, 0)), &[]);
@@ -336,6 +373,12 @@ pub fn dirty_reasons(st: &crate::mockpg::Snap, caching: bool) -> Vec<String> {
     if st.unsent > 0 {
         r.push("unsent-reply".into());
     }
+    if st.pending_sync {
+        r.push("pending-sync".into());
+    }
+    if st.skip {
+        r.push("discarding-until-sync".into());
+    }
     if st.role != "none" {
         r.push("role".into());
     }
@@ -531,6 +574,17 @@ pub fn build(tier: &str) -> SimCheck {
             let (units, _) = victim_units(prog);
             for mid in ["set", "opentxn"] {
                 if let Some(sc) = scenario("transaction", cache, prog, (units.len(), 0), "hc-timeout", Some(mid)) {
+                    scenarios.push(sc);
+                }
+            }
+        }
+    }
+    // a statement cache of one entry: the statement bound during the COPY has been evicted from the server
+    {
+        let (units, _) = victim_units("copyin-batch");
+        for k in 3..=units.len() {
+            for ending in ENDINGS {
+                if let Some(sc) = scenario("transaction", 1, "copyin-batch", (k, 0), ending, None) {
                     scenarios.push(sc);
                 }
             }
